@@ -98,6 +98,9 @@ def cases(tier, seed):
         cur = CURRENTS[len(TERMS[d])]
         for c, sc in itertools.product((cur[0], cur[1], cur[6]), (1e-9, 1e3) if not quick else (1e-9,)):
             out.append(dict(fam="run", dev=d, dens="coarse", cur=c, field="zero", adaptive=False, k=2, screening=False, units="um", seeded=False, cur_scale=sc))
+    # a callable that updates one dict in place and returns the same object every time
+    for d, field, thermal in itertools.product(("G1", "G3", "G4"), ("static", "ramp"), (False, True)):
+        out.append(dict(fam="run", dev=d, dens="coarse", cur="ramp_inplace", field=field, adaptive=False, k=2, screening=False, units="um", seeded=False, **({"thermal": True} if thermal else {})))
     # constant dicts that omit an idle terminal
     out.append(dict(fam="run", dev="G3", dens="coarse", cur=[2, -2, 0], field="static", adaptive=False, k=2, screening=False, units="um", seeded=False, omit_idle=True))
     out.append(dict(fam="run", dev="G4", dens="coarse", cur=[1, 2, -3, 0], field="static", adaptive=False, k=2, screening=False, units="um", seeded=False, omit_idle=True))
@@ -147,6 +150,18 @@ def current_func(spec, names, base_scale=1.0, omit_idle=False):
         def f(t):
             return {nm: base_scale * b * (0.5 + t) for nm, b in zip(names, base)}
         return f, f
+    if spec == "ramp_inplace":
+        # the callable keeps ONE dict, updates it in place and hands the same object back at every call
+        store = {}
+
+        def g(t):
+            for nm, b in zip(names, base):
+                store[nm] = base_scale * b * (0.5 + t)
+            return store
+
+        def f(t):
+            return {nm: base_scale * b * (0.5 + t) for nm, b in zip(names, base)}
+        return g, f
     if spec == "sin":
         def f(t):
             return {nm: base_scale * b * np.sin(3 * t + 0.4) for nm, b in zip(names, base)}
